@@ -560,3 +560,18 @@ Proof.
   apply (tls_rejects_both name ns d wildcard path_of SMissing N); [|left; reflexivity].
   eapply deleted_secret_missing; exact H.
 Qed.
+
+(* ---------------------------------------------------------------- the mesh certificate *)
+
+(* a handshake that must be rejected is rejected for an internal route too: the mesh (SPIFFE)
+   certificate never stands in for an unusable TLS Secret *)
+Theorem reject_wins_over_mesh_certificate : forall name ns d wildcard path_of st spiffe s,
+  name <> "" -> secret_state d TyTLS (nskey ns name) = st ->
+  st = SMissing \/ st = SInvalid \/ st = SWrongType ->
+  (vs_ssl_config (Some name) ns d wildcard path_of = Some s \/ ingress_ssl_config (Some name) ns d wildcard path_of = Some s) ->
+  served_certificate spiffe s = None.
+Proof.
+  intros name ns d wildcard path_of st spiffe s N E H C.
+  destruct (tls_rejects_both name ns d wildcard path_of st N E H) as [A B].
+  destruct C as [C|C]; [rewrite A in C | rewrite B in C]; inversion C; subst; reflexivity.
+Qed.
